@@ -25,3 +25,4 @@ REGISTRY["consts"] = ("consts", None)
 REGISTRY["r1cs_sound"] = ("r1cs", "sound")
 REGISTRY["r1cs_compl"] = ("r1cs", "compl")
 REGISTRY["min_invsqrt"] = ("mincurve", "invsqrt")
+REGISTRY["bls_consts"] = ("blsconsts", None)
